@@ -127,7 +127,9 @@ func redirectSel(files []*file, pkg, name, newName string) {
 	}
 }
 
-// prologue inserts text right after the opening brace of recv.name.
+// prologue inserts text right after the opening brace of recv.name. In text, $R is replaced by the
+// receiver's name, $P0, $P1... by the parameter names and $ERR by the name of an error result ("nil"
+// if the results are unnamed), so that renamed identifiers do not break the seam.
 func prologue(files []*file, recv, name, text string) {
 	for _, f := range files {
 		for _, d := range f.ast.Decls {
@@ -135,7 +137,27 @@ func prologue(files []*file, recv, name, text string) {
 			if !ok || fd.Body == nil || fd.Name.Name != name || recvType(fd) != recv {
 				continue
 			}
-			f.insertAt(fd.Body.Lbrace+1, "\n"+text+"\n")
+			t := text
+			if fd.Recv != nil && len(fd.Recv.List) > 0 && len(fd.Recv.List[0].Names) > 0 {
+				t = strings.ReplaceAll(t, "$R", fd.Recv.List[0].Names[0].Name)
+			}
+			i := 0
+			for _, p := range fd.Type.Params.List {
+				for _, n := range p.Names {
+					t = strings.ReplaceAll(t, fmt.Sprintf("$P%d", i), n.Name)
+					i++
+				}
+			}
+			errName := "nil"
+			if fd.Type.Results != nil {
+				for _, r := range fd.Type.Results.List {
+					if id, ok := r.Type.(*ast.Ident); ok && id.Name == "error" && len(r.Names) > 0 {
+						errName = r.Names[0].Name
+					}
+				}
+			}
+			t = strings.ReplaceAll(t, "$ERR", errName)
+			f.insertAt(fd.Body.Lbrace+1, "\n"+t+"\n")
 		}
 	}
 }
@@ -183,24 +205,32 @@ func methodCallInRecv(files []*file, recv, meth, newName string) {
 	}
 }
 
-// fieldMethodCall rewrites X.field.meth() to newName(X.field).
-func fieldMethodCall(files []*file, field, meth, newName string) {
+// fieldMethodCall rewrites X.<any field>.meth() (no arguments) inside methods of recv to
+// newName(X.<field>): the field may be renamed, the shape stays.
+func fieldMethodCall(files []*file, recv, meth, newName string) {
 	for _, f := range files {
-		ast.Inspect(f.ast, func(n ast.Node) bool {
-			c, ok := n.(*ast.CallExpr)
-			if !ok || len(c.Args) != 0 {
+		for _, d := range f.ast.Decls {
+			fd, ok := d.(*ast.FuncDecl)
+			if !ok || fd.Body == nil || recvType(fd) != recv {
+				continue
+			}
+			ast.Inspect(fd.Body, func(n ast.Node) bool {
+				c, ok := n.(*ast.CallExpr)
+				if !ok || len(c.Args) != 0 {
+					return true
+				}
+				s, ok := c.Fun.(*ast.SelectorExpr)
+				if !ok || s.Sel.Name != meth {
+					return true
+				}
+				if in, ok := s.X.(*ast.SelectorExpr); ok {
+					if _, ok := in.X.(*ast.Ident); ok {
+						f.replace(c, newName+"("+f.text(in.Pos(), in.End())+")")
+					}
+				}
 				return true
-			}
-			s, ok := c.Fun.(*ast.SelectorExpr)
-			if !ok || s.Sel.Name != meth {
-				return true
-			}
-			in, ok := s.X.(*ast.SelectorExpr)
-			if ok && in.Sel.Name == field {
-				f.replace(c, newName+"("+f.text(in.Pos(), in.End())+")")
-			}
-			return true
-		})
+			})
+		}
 	}
 }
 
@@ -323,6 +353,58 @@ func insertAfterCallStmt(files []*file, name, text string) {
 	}
 }
 
+// genForkWrapper finds the child function (the one that calls vfork.RawVforkSyscall, whatever it is
+// called and whatever its parameters are), redirects calls of it to a generated wrapper that first
+// hands the stub kernel a closure re-entering it (the "child"), then runs it as the parent.
+func genForkWrapper(files []*file) {
+	for _, f := range files {
+		for _, d := range f.ast.Decls {
+			fd, ok := d.(*ast.FuncDecl)
+			if !ok || fd.Body == nil || fd.Recv != nil {
+				continue
+			}
+			found := false
+			ast.Inspect(fd.Body, func(n ast.Node) bool {
+				if s, ok := n.(*ast.SelectorExpr); ok && s.Sel.Name == "RawVforkSyscall" {
+					found = true
+				}
+				return true
+			})
+			if !found {
+				continue
+			}
+			name := fd.Name.Name
+			var decl, args []string
+			first := ""
+			for _, p := range fd.Type.Params.List {
+				t := f.text(p.Type.Pos(), p.Type.End())
+				for _, n := range p.Names {
+					decl = append(decl, n.Name+" "+t)
+					args = append(args, n.Name)
+					if first == "" {
+						first = n.Name
+					}
+				}
+			}
+			res := ""
+			if fd.Type.Results != nil {
+				res = f.text(fd.Type.Results.Pos(), fd.Type.Results.End())
+			}
+			inner := append([]string{"vkChildRunner"}, args[1:]...)
+			w := "func vkForkAndExec(" + strings.Join(decl, ", ") + ") " + res + " {\n" +
+				"\tif vkOn {\n\t\tvk.BeginLaunch(" + first + ", func(vkChildRunner *Runner) {\n\t\t\t" + name + "(" + strings.Join(inner, ", ") + ")\n\t\t})\n\t}\n" +
+				"\treturn " + name + "(" + strings.Join(args, ", ") + ")\n}"
+			f.tail = append(f.tail, w)
+			redirectIdentCallExcept(files, name, "vkForkAndExec")
+			return
+		}
+	}
+}
+
+// redirectIdentCallExcept is redirectIdentCall that leaves calls inside the generated wrapper alone
+// (the wrapper is appended as text and not part of the parsed AST, so every parsed call is redirected).
+func redirectIdentCallExcept(files []*file, name, newName string) { redirectIdentCall(files, name, newName) }
+
 func main() {
 	if len(os.Args) < 2 {
 		fmt.Fprintln(os.Stderr, "usage: seamgen <scratch-repo-copy>")
@@ -333,20 +415,20 @@ func main() {
 	// --- pkg/unixsocket: transport seam
 	us := load(filepath.Join(root, "pkg/unixsocket"))
 	addField(us, "Socket", "\tSim SimConn // verif seam: in-memory transport when non-nil")
-	prologue(us, "Socket", "SendMsg", "\tif s.Sim != nil {\n\t\treturn s.Sim.SimSend(b, m)\n\t}")
-	prologue(us, "Socket", "RecvMsg", "\tif s.Sim != nil {\n\t\treturn s.Sim.SimRecv(b)\n\t}")
-	prologue(us, "Socket", "SetPassCred", "\tif s.Sim != nil {\n\t\treturn s.Sim.SimSetPassCred(option)\n\t}")
+	prologue(us, "Socket", "SendMsg", "\tif $R.Sim != nil {\n\t\treturn $R.Sim.SimSend($P0, $P1)\n\t}")
+	prologue(us, "Socket", "RecvMsg", "\tif $R.Sim != nil {\n\t\treturn $R.Sim.SimRecv($P0)\n\t}")
+	prologue(us, "Socket", "SetPassCred", "\tif $R.Sim != nil {\n\t\treturn $R.Sim.SimSetPassCred($P0)\n\t}")
 
 	// --- container: process seam, constructor tails, message observation
 	ct := load(filepath.Join(root, "container"))
 	redirectSel(ct, "syscall", "Kill", "vsimKill")
 	redirectSel(ct, "syscall", "Wait4", "vsimWait4")
 	methodCallInRecv(ct, "containerServer", "Start", "vsimStart")
-	fieldMethodCall(ct, "process", "Kill", "vsimProcKill")
-	fieldMethodCall(ct, "process", "Wait", "vsimProcWait")
-	prologue(ct, "containerServer", "serve", "\tvsimServeStart(c)")
-	prologue(ct, "socket", "SendMsg", "\tvsimNoteSend(s, e)")
-	prologue(ct, "socket", "RecvMsg", "\tdefer func() { vsimNoteRecv(s, e, err) }()")
+	fieldMethodCall(ct, "container", "Kill", "vsimProcKill")
+	fieldMethodCall(ct, "container", "Wait", "vsimProcWait")
+	prologue(ct, "containerServer", "serve", "\tvsimServeStart($R)")
+	prologue(ct, "socket", "SendMsg", "\tvsimNoteSend($R, $P0)")
+	prologue(ct, "socket", "RecvMsg", "\tdefer func() { vsimNoteRecv($R, $P0, $ERR) }()")
 	extractTail(ct, "Builder", "startContainer", "container",
 		"func vsimHostTail(ins *unixsocket.Socket) (*container, error)",
 		"\tvar r struct{ Process *os.Process }\n\t_ = r",
@@ -386,12 +468,13 @@ func main() {
 	redirectIdentCall(fe, "beforeFork", "vkBeforeFork")
 	redirectIdentCall(fe, "afterFork", "vkAfterFork")
 	redirectIdentCall(fe, "afterForkInChild", "vkAfterForkInChild")
-	redirectIdentCall(fe, "forkAndExecInChild", "vkForkAndExec")
+	genForkWrapper(fe)
 	goToCall(fe, "vkGo")
 
 	// --- ptracer: hook between a tracee's stop and the tracer's next request
 	pt := load(filepath.Join(root, "ptracer"))
 	redirectSel(pt, "unix", "Wait4", "vhWait4")
+	redirectSel(pt, "syscall", "Wait4", "vhWait4s")
 
 	// --- pkg/cgroup: a simulator yield before every file-system call, seeded random names
 	cg := load(filepath.Join(root, "pkg/cgroup"))
